@@ -13,9 +13,12 @@ def main():
     print(out[-3000:])
     if rc != 0:
         return 1
-    ok, exe, lg = vlib.build_model_driver()
-    if not ok:
-        print(lg)
-        return 1
-    print('setup ok:', exe)
+    import glob, os
+    for f in sorted(glob.glob(os.path.join(vlib.COQ, 'Extract_C*.v'))):
+        prop = os.path.basename(f)[len('Extract_'):-2]
+        ok, exe, lg = vlib.build_model_driver(prop)
+        if not ok:
+            print(lg)
+            return 1
+        print('setup ok:', exe)
     return 0
